@@ -10,6 +10,7 @@ DECLS = [
     ({"paren": "integer(4)", "star": "integer*4", "kind": "integer(kind=4)"}, ["optional", "intent(out)"], ["n"]),
     ({"paren": "character(10)", "star": "character*10", "kind": "character(len=10)"}, ["intent(inout)"], ["cs"]),
     ({"paren": "logical", "star": "logical", "kind": "logical"}, ["allocatable", "dimension(:)"], ["flags"]),
+    ({"paren": "integer", "star": "integer", "kind": "integer"}, ["external"], ["callback"]),           # a dummy procedure given by type + EXTERNAL
 ]
 MODVARS = [
     ({"paren": "real(8)", "star": "real*8", "kind": "real(kind=8)"}, ["parameter"], [("pi", "3.14d0")]),
@@ -50,13 +51,13 @@ def render(kind_sp, attr_style, end_style, dcolon, upper):
     L.append("    " + K("real") + (" :: " if dcolon else " ") + "x")
     L.append("  " + {"bare": K("end type"), "kw": K("end type"), "named": K("end type") + " point", "joined": K("endtype") + " point"}[end_style])
     L.append(K("contains"))
-    L.append("  " + K("subroutine") + " work(xa, n, cs, flags)")
+    L.append("  " + K("subroutine") + " work(xa, n, cs, flags, callback)")
     for ts, attrs, ents in DECLS:
         decl(ts, attrs, ents, "    ")
     end("subroutine", "work", "  ")
     L.append("  " + K("pure function") + " area(r) " + K("result") + "(a)")
     decl({"paren": "real(8)", "star": "real*8", "kind": "real(kind=8)"}, ["intent(in)"], ["r"], "    ")
-    decl({"paren": "real(8)", "star": "real*8", "kind": "real(kind=8)"}, [], ["a"], "    ")
+    decl({"paren": "real(8)", "star": "real*8", "kind": "real(kind=8)"}, ["target"], ["a"], "    ")           # an attribute of the result variable
     L.append("    a = 3.14d0 * r * r")
     end("function", "area", "  ")
     end("module", "geom", "")
